@@ -110,7 +110,7 @@ type c12Round struct {
 
 func c12(ctx *core.Ctx) {
 	quietLogs()
-	ctx.Rule("rounds of W mutator goroutines (each owns one WebService key /k<i>: Add/Remove of a fresh WebService, and one route key /dyn/r<i>: Route/RemoveRoute on a dynamic-routes service; handlers return a unique generation) and R reader goroutines probing dynamic and stable URLs; both routers x {ServeHTTP, Dispatch}; yields injected through If-conditions (inside the read-locked selection) and a container filter. Monitors: Go race detector; client-boundary history {op, key, gen, call, return} checked by porcupine per key against a register over {absent, gen}; stable URLs must always get their fixed answer; panics; blocked-goroutine state detector. Non-trivial = a read that overlapped a write of its own key; distinct by (round configuration, key, observed value class).")
+	ctx.Rule("rounds of W mutator goroutines (each owns one WebService key /k<i>: Add/Remove of a fresh WebService, and one route key /dyn/r<i>/{id:regex}: Route/RemoveRoute on a dynamic-routes service, each generation with another regular expression; Remove is now and then repeated; handlers return a unique generation) and R reader goroutines probing dynamic and stable URLs; both routers x {ServeHTTP, Dispatch}; yields injected through If-conditions (inside the read-locked selection) and a container filter. Monitors: Go race detector; client-boundary history {op, key, gen, call, return} checked by porcupine per key against a register over {absent, gen}; stable URLs must always get their fixed answer; panics; blocked-goroutine state detector. Non-trivial = a read that overlapped a write of its own key; distinct by (round configuration, key, observed value class).")
 	ctx.Assume("schedules are not reproducible: evidence reports the overlap actually observed", "a porcupine timeout is inconclusive, never a violation")
 	rounds := ctx.N(64, 6000)
 	var totalOps, totalOverlap, partitions int
@@ -188,6 +188,7 @@ func c12(ctx *core.Ctx) {
 				}()
 				skey := fmt.Sprintf("/k%d", m)
 				rkey := fmt.Sprintf("/dyn/r%d", m)
+				rpath := ""
 				var ws *restful.WebService
 				routeOn := false
 				for i := 0; i < rd.OpsPer; i++ {
@@ -203,19 +204,27 @@ func c12(ctx *core.Ctx) {
 						call := now()
 						c.Remove(ws)
 						hist.add(porcupine.Operation{ClientId: m, Input: regIn{skey, opRemove, 0}, Call: call, Output: 0, Return: now()})
+						if i%6 == 5 {
+							// a repeated clean-up of the same WebService (no longer registered) is harmless
+							call = now()
+							c.Remove(ws)
+							hist.add(porcupine.Operation{ClientId: m, Input: regIn{skey, opRemove, 0}, Call: call, Output: 0, Return: now()})
+						}
 						ws = nil
 					}
 					runtime.Gosched()
 					// route key
 					if !routeOn {
 						g := int(atomic.AddInt64(&gen, 1))
+						rpath = fmt.Sprintf("/dyn/r%d/{id:[0-9]{1,%d}}", m, 1+g%9)
 						call := now()
-						dyn.Route(dyn.GET(fmt.Sprintf("/r%d", m)).If(yieldCond).To(genHandler(g)))
+						// every generation declares its parameter with another regular expression
+						dyn.Route(dyn.GET(fmt.Sprintf("/r%d/{id:[0-9]{1,%d}}", m, 1+g%9)).If(yieldCond).To(genHandler(g)))
 						hist.add(porcupine.Operation{ClientId: m, Input: regIn{rkey, opAdd, g}, Call: call, Output: 0, Return: now()})
 						routeOn = true
 					} else {
 						call := now()
-						dyn.RemoveRoute(rkey, "GET")
+						dyn.RemoveRoute(rpath, "GET")
 						hist.add(porcupine.Operation{ClientId: m, Input: regIn{rkey, opRemove, 0}, Call: call, Output: 0, Return: now()})
 						routeOn = false
 					}
@@ -238,7 +247,7 @@ func c12(ctx *core.Ctx) {
 						path := key + "/v"
 						if k >= rd.Mutators {
 							key = fmt.Sprintf("/dyn/r%d", k-rd.Mutators)
-							path = key
+							path = key + "/7"
 						}
 						call := now()
 						status, body, ok := get(path)
